@@ -146,7 +146,7 @@ func libParams(q *RunParams) traceroute.TracerouteParams {
 		TracerouteQueries: q.Queries, E2eQueries: q.E2E, SkipPrivateHops: q.SkipPrivate}
 }
 
-func init() { kinds["run"] = runRun; kinds["alloc"] = runAlloc }
+func init() { kinds["run"] = runRun; kinds["alloc"] = runAlloc; kinds["bpfgen"] = runBpfGen }
 
 func runRun(t *testing.T, s *Scenario) (evs []wire.Event) {
 	rp := s.Run
@@ -545,6 +545,43 @@ func runAlloc(t *testing.T, s *Scenario) []wire.Event {
 			w.LogEvent("Alloc", "caller", -1, "m", m, "base", -1, "echo", -1-r, "round", r, "bases", all)
 		}
 	}
+	w.LogEvent("Return", "ok", true, "panic", "", "err", errInfo(nil), "has_result", false, "hops", []hopOut{}, "src", "", "sport", 0, "dst", "", "dport", 0,
+		"goroutines", 0, "gsample", "", "opened", 0, "closed_once", 0, "bad_handles", []string{}, "accepts", 0)
+	return w.Events()
+}
+
+// runBpfGen: G goroutines (concurrent runs) generate their capture filter programs at the same time, each for its own tuple: what
+// concurrent TCP/SACK runs do when they install their filters (the race detector is the judge, check C14).
+func runBpfGen(t *testing.T, s *Scenario) []wire.Event {
+	num := func(k string) int { v, _ := s.Extra[k].(float64); return int(v) }
+	g, n := num("g"), num("n")
+	w := wire.New(wire.Script{})
+	w.LogEvent("Params", "variant", "bpfgen", "entry", "bpfgen", "strict", false, "min", 0, "max", 0, "timeout_us", 0, "delay_us", 0, "poll_us", 0,
+		"target", "", "port", 0, "cancel_us", 0, "filter", false, "g", g, "n", n)
+	gate := make(chan struct{})
+	var wg sync.WaitGroup
+	bad := make([]int, g)
+	for ci := 0; ci < g; ci++ {
+		wg.Add(1)
+		go func(ci int) {
+			defer wg.Done()
+			<-gate
+			for i := 0; i < n; i++ {
+				sport, dport := uint16(443), uint16(40000+ci*100+i%50)
+				spec := packets.PacketFilterSpec{FilterType: packets.FilterTypeTCP, FilterConfig: packets.FilterConfig{
+					Src: netip.AddrPortFrom(netip.AddrFrom4([4]byte{198, 51, 100, 9}), sport), Dst: netip.AddrPortFrom(netip.AddrFrom4([4]byte{10, 77, 0, 1}), dport)}}
+				raw, err := packets.VerifClassicBPF(spec)
+				if err != nil {
+					bad[ci]++
+					continue
+				}
+				_ = raw // (the program is not read here: a report must have the repository on both sides, see check C14)
+			}
+		}(ci)
+	}
+	close(gate)
+	wg.Wait()
+	w.LogEvent("Got", "op", "bpfgen", "bad", bad)
 	w.LogEvent("Return", "ok", true, "panic", "", "err", errInfo(nil), "has_result", false, "hops", []hopOut{}, "src", "", "sport", 0, "dst", "", "dport", 0,
 		"goroutines", 0, "gsample", "", "opened", 0, "closed_once", 0, "bad_handles", []string{}, "accepts", 0)
 	return w.Events()
